@@ -935,7 +935,7 @@ def detect_rm(impl_w):
 
 def check(run):
     quick = run.tier == "quick"
-    n_cases = 200 if quick else 3000
+    n_cases = 160 if quick else 3000
     run.coverage["rule"] = (
         "populations of 2-5 versioned nodes (identities, campaigns, a registered custom type; 1-3 versions each from a "
         "boundary palette, STIX 2.0 / 2.1 / mixed), 1-5 relationships with 1-2 versions (self loops, dangling ends, "
@@ -998,7 +998,7 @@ def check(run):
         broke = True
         run.broken.append(Broken("correspondence", "model evaluation failed", {"error": str(e)[-1500:]}))
     # ObjectFactory stream: model vs implementation
-    fcases = [gen_factory_case(run.rng) for _ in range(150 if quick else 3000)]
+    fcases = [gen_factory_case(run.rng) for _ in range(100 if quick else 3000)]
     fprobe = {"kind": "factory", "cls": "xreg21", "init": {"external_references": "p"}, "list_append": True,
               "setters": [], "calls": [{}], "via": "factory"}
     eso = not isinstance(common.run_impl("c18_impl", [fprobe], procs=1)[0][0], str)
